@@ -28,6 +28,22 @@ TRUSTED_BASE = [
 ]
 
 
+def import_closure(path):
+    """module names imported (transitively) by a Lean file of the project"""
+    seen, stack = set(), [path]
+    while stack:
+        f = stack.pop()
+        try:
+            text = open(f, encoding="utf-8").read()
+        except OSError:
+            continue
+        for m in re.findall(r"^import\s+(ActsModel[\w.]*)", text, re.M):
+            if m not in seen:
+                seen.add(m)
+                stack.append(os.path.join(LEAN, *m.split(".")) + ".lean")
+    return seen
+
+
 class Lock:
     def __init__(self, name):
         os.makedirs(CACHE, exist_ok=True)
@@ -155,6 +171,17 @@ class Ctx:
         if not self.build_info.get("cargo", {}).get("ok", False):
             self.proof_breaks.append({"stream": "harness build", "detail": self.build_info["cargo"].get("log", "")[-1500:]})
         failed = set()
+        # a table this module depends on could not be regenerated from the source: none of its theorems is discharged against the current code
+        stale = [k for k, v in self.build_info.get("translate", {}).items() if isinstance(v, dict) and v.get("ok") is False]
+        if "error" in self.build_info.get("translate", {}):
+            stale = ["<translator crashed>"]
+        deps = import_closure(path)
+        hit = [k for k in stale if k == "<translator crashed>" or f"ActsModel.Gen.{k}" in deps]
+        if hit:
+            failed = {n for n, _ in names}
+            for k in hit:
+                msg = self.build_info["translate"].get(k, {}).get("msg", "") if k != "<translator crashed>" else self.build_info["translate"].get("error", "")[-400:]
+                self.proof_breaks.append({"theorem": f"translated table Gen.{k} (the source no longer has the shape the table was read from)", "detail": msg})
         if not ok:
             # map error lines to theorems of this file; errors in imported modules fail everything
             rel = os.path.relpath(path, LEAN)
@@ -201,6 +228,7 @@ class Ctx:
         self.failed_theorems = sorted(failed)
         self.cov["obligations"] = len(names)
         self.cov["discharged"] = len(names) - len(failed) if ok else 0
+        self.cov["stale_tables"] = hit
         self.cov["checker_cmd"] = f"cd lean/ActsModel && lake build {props_module} && lake env lean <audit with #print axioms>"
         self.cov["trusted_base"] = list(TRUSTED_BASE)
         self.cov["theorems"] = [{"name": n, "axioms": axioms.get(n)} for n, _ in names]
